@@ -434,9 +434,9 @@ Lemma reserve_ok n xs : op_ok (rsv_cap n) (reserve n) xs xs.
 Proof.
   intros s Hg. pose proof Hg as (Hnw & Hsz & Hlen & G). unfold reserve, rsv_cap.
   destruct (Nat.leb_spec n (capacity s)).
-  - exists s; repeat split; auto; lia.
-  - unfold capacity in *. destruct (relocate_ok n s xs Hg) as (s' & E & Hg' & Hc & _ & Hct & Hdt); [lia|].
-    exists s'; repeat split; auto; lia.
+  - exists s. unfold bal. msplit.
+  - destruct (relocate_ok n s xs Hg) as (s' & E & Hg' & Hc & _ & Hct & Hdt); [unfold capacity in *; lia|].
+    exists s'. unfold bal. msplit.
 Qed.
 
 Definition shr_cap (len c c' : nat) : Prop := c' = if shrink_keeps c len then c else len.
@@ -445,9 +445,9 @@ Lemma shrink_to_fit_ok xs : op_ok (shr_cap (length xs)) shrink_to_fit xs xs.
 Proof.
   intros s Hg. pose proof Hg as (Hnw & Hsz & Hlen & G). unfold shrink_to_fit, shr_cap. rewrite Hsz.
   destruct (shrink_keeps (capacity s) (length xs)).
-  - exists s; repeat split; auto; lia.
+  - exists s. unfold bal. msplit.
   - rewrite <- Hsz. destruct (relocate_ok (size s) s xs Hg) as (s' & E & Hg' & Hc & _ & Hct & Hdt); [lia|].
-    exists s'; repeat split; auto; try lia. rewrite Hc; auto.
+    exists s'. unfold bal. msplit.
 Qed.
 
 Lemma firstn_all_app (xs : list elt) n : length xs <= n -> firstn n xs = xs.
@@ -600,9 +600,8 @@ Proof.
   destruct (cur s) eqn:Ec.
   - exists (set_size 0 s). split; auto. simpl in Hlen. assert (length xs = 0) by lia.
     destruct xs; [|discriminate]. unfold good, bal, capacity; simpl. rewrite Ec.
-    repeat split; auto; try lia. intro j. rewrite get_nil, cget_nil. auto.
-  - rewrite <- Ec.
-    destruct (clear_ok xs s Hg) as (s1 & E1 & Hg1 & (B1 & B2 & B3) & _). rewrite E1; simpl.
+    repeat split; auto; try lia.
+  - destruct (clear_ok xs s Hg) as (s1 & E1 & Hg1 & (B1 & B2 & B3) & _). rewrite E1; simpl.
     pose proof Hg1 as (Hnw1 & Hsz1 & Hlen1 & G1).
     rewrite realloc_raw_ok. 2:{ intro j. rewrite G1. apply cget_nil. }
     eexists; split; [reflexivity|]. unfold good, bal, capacity; simpl.
@@ -662,11 +661,10 @@ Proof.
   match goal with |- context [construct_list vs 0 ?s0] =>
     destruct (construct_list_ok vs 0 s0) as (s2 & E2 & F2 & W2 & G2) end; simpl; try (rewrite repeat_length; lia).
   { intros j Hj. apply get_repeat_raw. }
-  exists s2; split; auto. split; [|split].
+  simpl in W2, G2. exists s2; split; auto. split; [|split].
   - unfold good. rewrite (fr_size _ _ _ _ F2), (fr_len _ _ _ _ F2). simpl. rewrite repeat_length.
-    repeat split; auto; try congruence.
-    intro j. rewrite G2. simpl. rewrite get_repeat_raw. bdestr.
-    + f_equal; lia. + symmetry; apply cget_ge; lia.
+    msplit.
+    intro j. rewrite G2, get_repeat_raw. pw.
   - unfold bal. rewrite (fr_ctor _ _ _ _ F2), (fr_dtor _ _ _ _ F2). simpl. lia.
   - exact I.
 Qed.
@@ -675,7 +673,7 @@ Lemma op_ok_seq C f g xs ys zs : op_ok C f xs ys -> op_ok anycap g ys zs ->
   op_ok anycap (fun s => s1 <- f s ;; g s1) xs zs.
 Proof.
   intros Hf Hg s Hs. destruct (Hf s Hs) as (s1 & E1 & G1 & (A1 & A2 & A3) & _). rewrite E1; simpl.
-  destruct (Hg s1 G1) as (s2 & E2 & G2 & (B1 & B2 & B3) & _). exists s2; repeat split; auto; lia.
+  destruct (Hg s1 G1) as (s2 & E2 & G2 & (B1 & B2 & B3) & _). exists s2. unfold bal, anycap. msplit.
 Qed.
 
 (* ------------------------------------------------------------------ element assignment and views *)
